@@ -22,6 +22,18 @@ def systems():
     }
 
 
+# conservation relations and stoichiometry written by hand from the formulas (atomic numbers: H 1, C 6, N 7, O 8, S 16, Cl 17, Fe 26; 0 = charge),
+# rows in ascending key order, columns in the substance order of `systems()`
+HAND = {
+    "ammonia": {"keys": [0, 1, 7, 8],
+                "B": [[0, 1, -1, 1, 0], [2, 1, 1, 4, 3], [0, 0, 0, 1, 1], [1, 0, 1, 0, 0]],
+                "A": [[-1, 1, 1, 0, 0], [0, 1, 0, -1, 1]]},
+    "complex": {"keys": [0, 6, 7, 16, 17, 26],
+                "B": [[3, -1, 2, 1, -1], [0, 1, 1, 2, 0], [0, 1, 1, 2, 0], [0, 1, 1, 2, 0], [0, 0, 0, 0, 1], [1, 0, 1, 1, 0]],
+                "A": [[-1, -1, 1, 0, 0], [0, -1, -1, 1, 0], [-1, -2, 0, 1, 0]]},
+}
+
+
 def build(v, name):
     from chempy.chemistry import Equilibrium
     from chempy.equilibria import EqSystem
@@ -56,7 +68,8 @@ def _residual(name):
         y = [v.real("y_" + s, lo=1e-6, hi=10) for s in subs]
         y0 = [v.real("y0_" + s, lo=0, hi=10) for s in subs]
         conc = dict(zip(subs, y))
-        B, keys = eqsys.composition_balance_vectors()
+        B, keys = HAND[name]["B"], HAND[name]["keys"]          # the specification's own matrices, not the object's
+        v.prove("system_reports_the_hand_written_conservation_relations", [list(map(int, row)) for row in eqsys.composition_balance_vectors()[0]] == B and list(eqsys.composition_balance_vectors()[1]) == keys)
         nr, nk = len(eqs), len(keys)
         params = list(y0) + list(Ks)
         cons = [sum(B[c][j] * (y[j] - y0[j]) for j in range(len(subs))) for c in range(nk)]
@@ -78,12 +91,19 @@ def _residual(name):
         v.prove("square.length", len(fs) == nr + nk)
         for i in range(nr + nk):
             v.prove_identity("square.entry_%d_is_lin_of_squares" % i, fs[i] + 0.0, fl[i] + 0.0)
+        # and directly against the specification with c = z^2 (either sign of z)
+        csq = dict(zip(subs, [zi * zi for zi in z]))
+        for i in range(nr):
+            v.prove_identity("square.equil_%d_is_Q_of_squares_over_K_minus_1" % i, fs[i], spec_Q(eqs, csq, i) / Ks[i] - 1)
+        for c in range(nk):
+            v.prove_identity("square.conservation_key%d_of_squares" % keys[c], fs[nr + c] + 0.0, sum(B[c][j] * (z[j] * z[j] - y0[j]) for j in range(len(subs))) + 0.0)
         # --- logarithmic variables
         be = v.backend()
         ly = [v.real("ly_" + s, lo=-10, hi=3) for s in subs]
         flog = v.call(NumSysLog(eqsys, backend=be).f, ly, params)
         v.prove("log.length", len(flog) == nr + nk)
-        A = eqsys.stoichs()
+        A = HAND[name]["A"]
+        v.prove("system_reports_the_hand_written_stoichiometry", [list(map(int, row)) for row in eqsys.stoichs()] == A)
         for i in range(nr):
             v.prove_identity("log.equil_%d" % i, flog[i], sum(int(A[i][j]) * ly[j] for j in range(len(subs))) - be.log(Ks[i]))
         for c in range(nk):
